@@ -105,6 +105,12 @@ def INDEX(arr, row_num=DEFAULT, column_num=DEFAULT, area_num=DEFAULT):
             return arr[row_num - 1]
         if row_num == 0 and column_num == 0:
             return arr
+        if not bidimensional:
+            # a one-dimensional array is a single column: there is no column beyond the first
+            if column_num > 1:
+                return error.REF
+            if row_num == 0:
+                return arr
         if row_num == 0:
             return [row[column_num - 1] for row in arr]
         if column_num == 0:
